@@ -126,7 +126,7 @@ def run(idx, rep, tier):
         ok = f"self.{meth}({x}.reshape{shape_in}).reshape(-1)" in src
         rep.decide(ok, "generic-path", f"LinearOperator.{m.name}:1-D", f"1-D operands are reshaped to {shape_in}, passed to {meth} and flattened back" if ok else
                    f"1-D operand path is not {meth}({x}.reshape{shape_in}).reshape(-1)", detail="" if ok else "reshape", locs=[idx.loc(m.module, m.node)])
-        ok2 = f"returnself.{meth}({x})" in src
+        ok2 = any(nospace(r.value) == f"self.{meth}({x})" for r in df.returns(m.node) if r.value is not None)
         rep.decide(ok2, "generic-path", f"LinearOperator.{m.name}:2-D", f"2-D operands go to {meth}" if ok2 else f"2-D operands do not go to {meth}", detail="" if ok2 else "method",
                    locs=[idx.loc(m.module, m.node)])
     if td is None:
